@@ -63,4 +63,41 @@ def ioLoop : List (Bool × Option Pos) → Option Pos → Option Pos
     if oot ∧ best.isSome then best
     else ioLoop rest (takeMsg arr best)
 
+
+/-! ### reading standard input (`read_from_gui`) and the whole process on a byte stream -/
+
+/-- `read_line`: everything up to and including the first newline; all that is left if there is none -/
+def readLine : List Char → List Char × List Char
+  | [] => ([], [])
+  | c :: rest =>
+    if c = '\n' then ([c], rest)
+    else let r := readLine rest; (c :: r.1, r.2)
+
+/-- `read_from_gui`: `none` = nothing could be read (end of input: `process::exit(0)` after the fix);
+    otherwise the raw line (cleaned by the caller) and what is left of the stream -/
+def readFromGui (inp : List Char) : Option (List Char × List Char) :=
+  let r := readLine inp
+  if r.1.isEmpty then none else some r
+
+/-- how the process ends -/
+inductive StreamEnd where
+  | exit (code : Nat)
+  | panic
+  | hang
+  | outOfFuel          -- never (`stream_never_out_of_fuel`): every line read consumes at least one byte
+  deriving DecidableEq, Repr
+
+/-- the command loop of `play_game_uci` (after the handshake) on what is left of standard input -/
+def runStream (h : Hasher) (search : Pos → DrawTable → Nat → Option Pos) : Nat → Sess → List Char → List String × StreamEnd
+  | 0, _, _ => ([], .outOfFuel)
+  | fuel + 1, σ, inp =>
+    match readFromGui inp with
+    | none => ([], .exit 0)
+    | some (line, rest) =>
+      match step h search σ (some line) with
+      | .cont σ' out => let r := runStream h search fuel σ' rest; (out ++ r.1, r.2)
+      | .exit c => ([], .exit c)
+      | .panic => ([], .panic)
+      | .hang => ([], .hang)
+
 end Walleye
